@@ -4,7 +4,7 @@ from pyvc.api import spec, init, last
 ALL_PAIRS = '[](){}<>""\'\''
 
 
-@spec
+@spec(opaque=True)
 def stack_step(st: list[str], toks: str, ch: str) -> list[str]:
 	"""One step of the scanner's bracket stack (ghost: mirrors BlockParser._skip_other_block; quotes are not special here)."""
 	if ch not in toks:
@@ -23,3 +23,81 @@ def code_stack(text: str, toks: str, lo: int, hi: int) -> list[str]:
 	if hi <= lo:
 		return []
 	return stack_step(code_stack(text, toks, lo, hi - 1), toks, text[hi - 1])
+
+
+@spec(decreases='n')
+def depth(text: str, b0: str, b1: str, n: int) -> int:
+	"""Nesting depth w.r.t. one bracket pair after the first n characters; a closer at depth 0 is ignored (clamped)."""
+	if n <= 0:
+		return 0
+	if text[n - 1] == b0:
+		return depth(text, b0, b1, n - 1) + 1
+	if text[n - 1] == b1 and depth(text, b0, b1, n - 1) >= 1:
+		return depth(text, b0, b1, n - 1) - 1
+	return depth(text, b0, b1, n - 1)
+
+
+@spec(decreases='n')
+def open_begin(text: str, b0: str, b1: str, n: int) -> int:
+	"""Position just after the most recent opener met at depth 0 within the first n characters (0 if none)."""
+	if n <= 0:
+		return 0
+	if text[n - 1] == b0 and depth(text, b0, b1, n - 1) == 0:
+		return n
+	return open_begin(text, b0, b1, n - 1)
+
+
+@spec(decreases='n')
+def lg_end(text: str, b0: str, b1: str, n: int) -> int:
+	"""Position of the closer of the last complete top-level group within the first n characters (-1 if none)."""
+	if n <= 0:
+		return -1
+	if text[n - 1] == b1 and depth(text, b0, b1, n - 1) == 1:
+		return n - 1
+	return lg_end(text, b0, b1, n - 1)
+
+
+@spec(decreases='n')
+def lg_begin(text: str, b0: str, b1: str, n: int) -> int:
+	"""Position just after the opener of the last complete top-level group within the first n characters (-1 if none)."""
+	if n <= 0:
+		return -1
+	if text[n - 1] == b1 and depth(text, b0, b1, n - 1) == 1:
+		return open_begin(text, b0, b1, n - 1)
+	return lg_begin(text, b0, b1, n - 1)
+
+
+@spec
+def is_cut(text: str, d: str, toks: str, i: int) -> bool:
+	"""Position i is a delimiter at code-level depth 0 that is not the last thing in the text (H1: code-derived notion of a cut)."""
+	return 0 <= i and i + len(d) < len(text) and text[i:i + len(d)] == d and len(code_stack(text, toks, 0, i)) == 0
+
+
+@spec(decreases='n')
+def seg_begin(text: str, d: str, toks: str, n: int) -> int:
+	"""Start of the current (unfinished) segment after the cuts at positions < n."""
+	if n <= 0:
+		return 0
+	if is_cut(text, d, toks, n - 1):
+		return n - 1 + len(d)
+	return seg_begin(text, d, toks, n - 1)
+
+
+@spec(decreases='n')
+def blocks_upto(text: str, d: str, toks: str, n: int) -> list[str]:
+	"""Stripped segments closed by the cuts at positions < n."""
+	if n <= 0:
+		return []
+	if is_cut(text, d, toks, n - 1):
+		return blocks_upto(text, d, toks, n - 1) + [text[seg_begin(text, d, toks, n - 1):n - 1].strip(' ')]
+	return blocks_upto(text, d, toks, n - 1)
+
+
+@spec(decreases='n')
+def raw_concat(text: str, d: str, toks: str, n: int) -> str:
+	"""Unstripped closed segments, each followed by the delimiter, concatenated."""
+	if n <= 0:
+		return ''
+	if is_cut(text, d, toks, n - 1):
+		return raw_concat(text, d, toks, n - 1) + text[seg_begin(text, d, toks, n - 1):n - 1] + d
+	return raw_concat(text, d, toks, n - 1)
